@@ -1042,6 +1042,59 @@ func genDecimal(thorough bool) []Case {
 	return cs
 }
 
+// genSameBounds: groups of chains that share the child text and the *outer bounds* of the parent but
+// differ in the parent's interior (a full interval, the same with gaps, only the two end points);
+// the members of a group are adjacent, so they are resolved inside one module.  What is accepted
+// under one parent must still be judged afresh under the next (witness of seeded change C10-b1).
+func genSameBounds() []Case {
+	var cs []Case
+	group := func(mode, base string, fd int, lit func(off int64, fromHi bool) string) {
+		lo, hi := lit(0, false), lit(0, true)
+		parents := []string{
+			lo + ".." + hi,
+			lo + ".." + lit(10, false) + "|" + lit(10, true) + ".." + hi,
+			lo + "|" + hi,
+			lo + ".." + lit(24, false) + "|" + lit(26, false) + ".." + hi,
+			"min..max",
+		}
+		children := []string{
+			lit(20, false) + ".." + lit(30, false), lit(25, false), lit(5, false), "min..max", lo + ".." + hi,
+			lit(20, true) + ".." + lit(5, true), "min.." + lit(12, false), lit(11, false), lit(1, false) + ".." + lit(1, true),
+			lo + "|" + hi, "min|max", lit(3, false) + "|" + lit(40, false) + ".." + lit(50, false),
+		}
+		for _, ch := range children {
+			for _, p := range parents {
+				addCase(&cs, mode, base, fd, p, ch)
+			}
+		}
+	}
+	for _, t := range intTypes {
+		l := limits[t]
+		group("int", t, 0, func(off int64, fromHi bool) string {
+			if fromHi {
+				return addLit(l.hi, -off)
+			}
+			return addLit(l.lo, off)
+		})
+	}
+	group("len", "nil", 0, func(off int64, fromHi bool) string {
+		if fromHi {
+			return addLit("18446744073709551615", -off)
+		}
+		return addLit("0", off)
+	})
+	for _, fd := range []int{1, 3, 18} {
+		fd := fd
+		group("dec", "dec", fd, func(off int64, fromHi bool) string {
+			if fromHi {
+				return decLit(addLit("9223372036854775807", -off), fd)
+			}
+			return decLit(addLit("-9223372036854775808", off), fd)
+		})
+	}
+	return cs
+}
+
 // random chains around the endpoints of the previous step
 func genRandom(rng *rand.Rand, n int) []Case {
 	var cs []Case
@@ -1513,6 +1566,7 @@ func main() {
 	}
 	secs := []section{
 		{"union_corpus", genUnionCorpus(), -1},
+		{"same_outer_bounds", genSameBounds(), 2},
 		{"int_api_grid", genIntAPI(th), 0},
 		{"syntax_variants", genSyntax(th), 1},
 		{"int_parent_grid", genIntParents(th), q(8, 16)},
@@ -1755,7 +1809,7 @@ func main() {
 	res.Evaluations = evals
 	res.DistinctNontrivial = nontriv
 	res.Exhaustive = true
-	res.Rule = "restriction chains = (mode int|dec|len, base type or none, fraction-digits, list of restriction texts); exhaustive grids: all texts of 1 part (and of 2 and 3 parts over smaller sets) with bounds from {min, max, 0, -0, +-1, every integer type's limits and limits+-1, 2^63-1, 2^63, 2^64-1, 2^64} called directly and under each of the 8 integer types x 8 (thorough 12) earlier restrictions of it through YANG typedef chains; the same for lengths and for decimal64 at fraction-digits 1, 2, 17, 18 (thorough: 1..18); literal-syntax tokens (white space incl. Unicode, base-0 literals, underscores, signs, keywords, 1..6 dots, empty parts) in all pairs; seeded random chains of depth 1..4, ordered random chains, random texts over the grammar's alphabet; every stride-th chain with a parent (all of the syntax tokens and random chains) is run once more with its last restriction placed on a member of a union whose earlier member is the unrestricted parent type (built-in or typedef; 2nd member, 3rd member, union inside a typedef, further member after it): error and range must be those of the plain placement; exported methods Contains/Equal/Validate/Sort/String on all lists of <= 2 parts over {0..4} (Contains: all pairs), over a signed universe with -0, over the 64-bit extremes at fd 0, 1, 18, all lists of 3 parts over {0..3}, random lists. Every Go outcome is compared with the model and judged by the executable specification. distinct_nontrivial = distinct inputs that have more than one part, a min/max keyword or more than one step (chains), or a list of more than one part (methods)"
+	res.Rule = "restriction chains = (mode int|dec|len, base type or none, fraction-digits, list of restriction texts); exhaustive grids: all texts of 1 part (and of 2 and 3 parts over smaller sets) with bounds from {min, max, 0, -0, +-1, every integer type's limits and limits+-1, 2^63-1, 2^63, 2^64-1, 2^64} called directly and under each of the 8 integer types x 8 (thorough 12) earlier restrictions of it through YANG typedef chains; the same for lengths and for decimal64 at fraction-digits 1, 2, 17, 18 (thorough: 1..18); groups of chains that differ only in the interior of the parent (same outer bounds, same child text) resolved inside one module; literal-syntax tokens (white space incl. Unicode, base-0 literals, underscores, signs, keywords, 1..6 dots, empty parts) in all pairs; seeded random chains of depth 1..4, ordered random chains, random texts over the grammar's alphabet; every stride-th chain with a parent (all of the syntax tokens and random chains) is run once more with its last restriction placed on a member of a union whose earlier member is the unrestricted parent type (built-in or typedef; 2nd member, 3rd member, union inside a typedef, further member after it): error and range must be those of the plain placement; exported methods Contains/Equal/Validate/Sort/String on all lists of <= 2 parts over {0..4} (Contains: all pairs), over a signed universe with -0, over the 64-bit extremes at fd 0, 1, 18, all lists of 3 parts over {0..3}, random lists. Every Go outcome is compared with the model and judged by the executable specification. distinct_nontrivial = distinct inputs that have more than one part, a min/max keyword or more than one step (chains), or a list of more than one part (methods)"
 	res.Write(f.Out)
 }
 
